@@ -494,3 +494,128 @@ package dagsync
 //@   ensures-local count("call:prevAdCid") == 1
 //@   ensures-local pe == nil ==> count("call:SegmentSyncActions.SetNextSyncCid") == 1 && count("call:SegmentSyncActions.FailSync") == 0
 //@   ensures-local pe != nil ==> count("call:SegmentSyncActions.FailSync") == 1 && count("call:SegmentSyncActions.SetNextSyncCid") == 0
+
+// Options (C01 "for all option combinations", C08): every option sets exactly the setting it names to the
+// value given (after the documented normalisation) and nothing else - the frame is checked.
+
+//@ func WithHeadAdCid$1
+//@   property C01
+//@   requires sc != nil
+//@   modifies sc.headAdCid
+//@   ensures sc.headAdCid == headAd
+
+//@ func WithStopAdCid$1
+//@   property C01
+//@   requires sc != nil
+//@   modifies sc.stopAdCid
+//@   ensures sc.stopAdCid == stopAd
+
+//@ func WithAdsResync$1
+//@   property C01
+//@   requires sc != nil
+//@   modifies sc.resync
+//@   ensures sc.resync == resync
+
+//@ func ScopedDepthLimit$1
+//@   property C01
+//@   requires sc != nil
+//@   modifies sc.depthLimit
+//@   ensures sc.depthLimit == limit
+
+//@ func ScopedSegmentDepthLimit$1
+//@   property C01
+//@   requires sc != nil
+//@   modifies sc.segDepthLimit
+//@   ensures sc.segDepthLimit == depth
+
+//@ func ScopedBlockHook$1
+//@   property C01
+//@   requires sc != nil
+//@   modifies sc.blockHook
+//@   ensures sc.blockHook == hook
+
+//@ func AdsDepthLimit$1
+//@   property C01
+//@   requires c != nil
+//@   modifies c.adsDepthLimit
+//@   ensures c.adsDepthLimit == limit
+//@   ensures result == nil
+
+//@ func EntriesDepthLimit$1
+//@   property C01
+//@   requires c != nil
+//@   modifies c.entriesDepthLimit
+//@   ensures c.entriesDepthLimit == depth
+//@   ensures result == nil
+
+//@ func SegmentDepthLimit$1
+//@   property C01
+//@   requires c != nil
+//@   modifies c.segDepthLimit
+//@   ensures c.segDepthLimit == depth
+//@   ensures result == nil
+
+//@ func BlockHook$1
+//@   property C01
+//@   requires c != nil
+//@   modifies c.blockHook
+//@   ensures c.blockHook == blockHook
+//@   ensures result == nil
+
+//@ func StrictAdsSelector$1
+//@   property C01
+//@   requires c != nil
+//@   modifies c.strictAdsSelSeq
+//@   ensures c.strictAdsSelSeq == strict
+//@   ensures result == nil
+
+//@ func IdleHandlerTTL$1
+//@   property C08
+//@   requires c != nil
+//@   modifies c.idleHandlerTTL
+//@   ensures c.idleHandlerTTL == ttl
+//@   ensures result == nil
+
+//@ func WithLastKnownSync$1
+//@   property C01
+//@   requires c != nil
+//@   modifies c.lastKnownSync
+//@   ensures c.lastKnownSync == f
+//@   ensures result == nil
+
+//@ func FirstSyncDepth$1
+//@   property C01
+//@   requires c != nil
+//@   modifies c.firstSyncDepth, depth
+//@   ensures c.firstSyncDepth == ite(old(depth) < 0, 0, old(depth)) && result == nil
+
+//@ func MaxAsyncConcurrency$1
+//@   property C08
+//@   requires c != nil
+//@   modifies c.maxAsyncSyncs, n
+//@   ensures c.maxAsyncSyncs == ite(old(n) == 0, old(c.maxAsyncSyncs), ite(old(n) < 0, 0, old(n))) && result == nil
+
+//@ func RecvAnnounce$1
+//@   property C16
+//@   requires c != nil
+//@   modifies c.hasRcvr, c.rcvrOpts, c.rcvrTopic
+//@   ensures c.hasRcvr && c.rcvrOpts == opts && str(c.rcvrTopic) == str(topic) && result == nil
+
+// The segment controller handed to block hooks (C01, C04): each action records exactly what it was given.
+//@ func (*segmentedSync).SetNextSyncCid
+//@   property C01
+//@   requires ss != nil
+//@   modifies ss.nextSyncCid
+//@   ensures ss.nextSyncCid != nil && *ss.nextSyncCid == c
+
+//@ func (*segmentedSync).FailSync
+//@   property C04
+//@   requires ss != nil
+//@   modifies ss.err
+//@   ensures ss.err == err
+
+//@ func (*segmentedSync).reset
+//@   property C01 C04
+//@   requires ss != nil
+//@   modifies ss.nextSyncCid, ss.err
+//@   ensures ss.nextSyncCid == nil && ss.err == nil
